@@ -4,7 +4,6 @@ package procbuilder
 
 import (
 	"errors"
-	"math"
 	"strconv"
 	"strings"
 
@@ -127,9 +126,9 @@ func (op Jgt0f) Simulate(vm *VM, instr string) error {
 	switch vm.Mach.Rsize {
 	case 32:
 		if v, ok := vm.Registers[reg].(uint32); ok {
-			floatVal := math.Float32frombits(v)
-
-			if floatVal > 0 {
+			// The hardware tests the sign bit of the register, so +0.0 (the reset value of a register)
+			// takes the jump as every other non negative pattern
+			if v&0x80000000 == 0 {
 				vm.Pc = uint64(jumpTo)
 			} else {
 				vm.Pc++
